@@ -175,6 +175,12 @@ def check_html_par(s: str, strict_vocab=True):
             if not stack or stack[-1] != t[1]:
                 return f"</{t[1]}> does not close the innermost open tag {stack[-1:] or None}"
             stack.pop()
+        elif t[0] == "atom" and (t[1].startswith("<latex>") or t[1].startswith("----Image alt text---->")):
+            head = "<latex>" if t[1].startswith("<latex>") else "----Image alt text---->"
+            tail = "</latex>" if t[1].startswith("<latex>") else "<"
+            inner = t[1][len(head):len(t[1]) - len(tail)]
+            if "<" in inner or ">" in inner or "&" in ENTITY.sub("", inner):
+                return f"unescaped markup character in {head!r} content"
         elif t[0] == "text":
             if ">" in t[1]:
                 return "unescaped '>' in text"
@@ -193,7 +199,14 @@ def strip_html(s: str) -> str:
         if t[0] == "text":
             out.append(t[1].replace("&lt;", "<").replace("&gt;", ">").replace("&amp;", "&"))
         elif t[0] == "atom":
-            out.append(t[2] if len(t) > 2 else t[1])
+            a = t[1]
+            if a.startswith("<latex>") or a.startswith("----Image alt text---->"):
+                # equation text and alt text are document text: escaped with html on
+                head = "<latex>" if a.startswith("<latex>") else "----Image alt text---->"
+                tail = "</latex>" if a.startswith("<latex>") else "<"
+                inner = a[len(head):len(a) - len(tail)]
+                a = head + inner.replace("&lt;", "<").replace("&gt;", ">").replace("&amp;", "&") + tail
+            out.append(a)
         elif t[0] == "open" and t[1] == "a":
             out.append(t[2])
         elif t[0] == "close" and t[1] == "a":
@@ -227,6 +240,149 @@ def o_html(ctx):
                         out.append(("html_projection",
                                     f"{ty}{list(addr)} strip+unescape(html) != plain: {hp[addr][:100]!r} vs {pp[addr][:100]!r}"))
                         break
+    out.extend(o_html_tags_exact(ctx))
+    return out
+
+
+# ---- C07: "the tags around a stretch of text are exactly those of the recognised
+# formatting switched on for it ... plus the paragraph's heading level"
+W_OFF = {"0", "false", "off", "none", "baseline"}
+
+
+def expected_run_tags(rpr, w):
+    """documented mapping (README): recognised run properties -> html tags"""
+    tags = set()
+    if rpr is None:
+        return tags
+    for k in rpr:
+        if not isinstance(k.tag, str) or not k.tag.startswith("{"):
+            continue
+        ns, name = k.tag[1:].split("}")
+        if ns != w:
+            continue
+        val = k.get(f"{{{w}}}val")
+        if val in W_OFF:
+            continue
+        if name in ("b", "i", "u"):
+            tags.add(name)
+        elif name == "strike":
+            tags.add("s")
+        elif name == "vertAlign" and val in ("superscript", "subscript"):
+            tags.add(val[:3])
+        elif name == "smallCaps":
+            tags.add(("style", "font-variant:small-caps"))
+        elif name == "caps":
+            tags.add(("style", "text-transform:uppercase"))
+        elif name == "highlight":
+            tags.add(("style", f"background-color:{val or ''}"))
+        elif name == "sz":
+            tags.add(("style", f"font-size:{val or ''}pt"))
+        elif name == "color":
+            tags.add(("style", f"color:{val or ''}"))
+    return tags
+
+
+def html_char_tags(s):
+    """[(char, frozenset(tags))] for the text characters of an html paragraph string, or None"""
+    toks, err = html_tokens(s)
+    if err:
+        return None
+    out, stack = [], []
+    for t in toks:
+        if t[0] == "open":
+            if t[1] == "span":
+                m = re.fullmatch(r'<span style="([^"<>]*)">', t[2])
+                if not m:
+                    return None
+                stack.append([("style", d) for d in m.group(1).split(";")])
+            elif t[1] == "a":
+                return None
+            else:
+                stack.append([t[1]])
+        elif t[0] == "close":
+            if not stack:
+                return None
+            stack.pop()
+        elif t[0] == "atom":
+            return None
+        else:
+            txt = t[1].replace("&lt;", "<").replace("&gt;", ">").replace("&amp;", "&")
+            cur = frozenset(x for fr in stack for x in fr)
+            out.extend((c, cur) for c in txt)
+    return out
+
+
+def o_html_tags_exact(ctx):
+    """paragraphs of the main document made of w:r/w:t only (no list marker, not nested):
+    per character, the set of tags around it is exactly the expected one"""
+    out = []
+    pkg = ctx.get("pkg")
+    if pkg is None or "word/document.xml" not in pkg.parts:
+        return out
+    root = pkg.parts["word/document.xml"]
+    w = root.nsmap.get("w")
+    if not w:
+        return out
+    q = lambda t: f"{{{w}}}{t}"  # noqa: E731
+    for dup in (True, False):
+        oh = ctx["per"].get((True, dup))
+        if oh is None or "exc" in oh.types.get("officeDocument", {"exc": 1}):
+            continue
+        t = oh.types["officeDocument"]
+        plain = dict(iter_pars(t["plain"]))
+        for addr, rec in iter_pars(t["pars"]):
+            path = rec["elem"]
+            if not isinstance(path, tuple):
+                continue
+            el = root
+            try:
+                for i in path:
+                    el = el[i]
+            except (IndexError, TypeError):
+                continue
+            if not isinstance(el.tag, str) or el.tag != q("p"):
+                continue
+            if any(a.tag == q("p") for a in el.iterancestors()):
+                continue
+            ppr = el.find(q("pPr"))
+            if ppr is not None and ppr.find(q("numPr")) is not None:
+                continue
+            kids = [k for k in el if isinstance(k.tag, str)]
+            simple = True
+            exp = []
+            heading = set()
+            if ppr is not None and ppr.find(q("pStyle")) is not None:
+                m = re.fullmatch(r"Heading([1-6])", ppr.find(q("pStyle")).get(q("val")) or "")
+                if m:
+                    heading = {"h" + m.group(1)}
+            for k in kids:
+                if k.tag in (q("pPr"), q("proofErr"), q("bookmarkStart"), q("bookmarkEnd")):
+                    continue
+                if k.tag != q("r"):
+                    simple = False
+                    break
+                rk = [x for x in k if isinstance(x.tag, str)]
+                if any(x.tag not in (q("rPr"), q("t")) for x in rk):
+                    simple = False
+                    break
+                tags = frozenset(expected_run_tags(k.find(q("rPr")), w) | heading)
+                for x in rk:
+                    if x.tag == q("t"):
+                        exp.extend((c, tags) for c in (x.text or ""))
+            if not simple:
+                continue
+            got = html_char_tags(plain.get(addr, ""))
+            if got is None:
+                continue
+            if [c for c, _ in got] != [c for c, _ in exp]:
+                continue  # not the same paragraph text: other oracles (C02) decide
+            for i, ((c, g), (_, e)) in enumerate(zip(got, exp)):
+                if g != e:
+                    out.append(("html_tags_exact",
+                                f"officeDocument{list(addr)} char {i} {c!r}: tags {sorted(map(str, g))} expected {sorted(map(str, e))}: {plain[addr][:120]!r}"))
+                    break
+            if out:
+                break
     return out
 
 
